@@ -39,6 +39,14 @@ pub struct Rec {
     /// "file" is /dev/full: every write(2) fails with ENOSPC
     #[serde(default)]
     pub full: bool,
+    /// (profile C04-quota) during this append the file may grow by this many
+    /// bytes only (RLIMIT_FSIZE): the write that crosses the limit is cut short,
+    /// the next one fails
+    #[serde(default)]
+    pub quota: Option<u16>,
+    /// (with quota) the limit stays in force for the following record as well
+    #[serde(default)]
+    pub hold: bool,
 }
 
 #[derive(Clone, Debug, Serialize, Deserialize, PartialEq)]
@@ -67,6 +75,10 @@ pub struct Scn {
     /// records (tid, n) whose encoder returns Err part-way (profile C04-encfail)
     #[serde(default)]
     pub enc_fail: Vec<(u16, u16)>,
+    /// profile C04-quota: one writer, a byte-exact reference model of the
+    /// appender's buffer, writes that fail half-way
+    #[serde(default)]
+    pub quota: bool,
     pub sched_seed: u64,
     pub policy: kernel::Policy,
 }
@@ -144,6 +156,39 @@ pub fn generate_stock(rng: &mut Rng, tier: Tier) -> Scn {
     s
 }
 
+/// One writer at a time, writes that fail half-way (a file size limit that
+/// falls inside a record), encoder failures in between: fault sequences at
+/// the write(2) and `Encode` seams, judged by a byte-exact model.
+pub fn generate_quota(rng: &mut Rng, tier: Tier) -> Scn {
+    let mut s = generate(rng, tier);
+    s.quota = true;
+    if rng.chance(2, 3) && !matches!(s.encoder, EncKind::Chunk { .. }) {
+        s.encoder = EncKind::Chunk { seed: rng.next_u64() };
+    }
+    let mut tid_base = 0u16;
+    for ph in s.phases.iter_mut() {
+        ph.handover = false;
+        ph.threads.truncate(1);
+        // a few more records: the interesting histories are failure, failure, recovery
+        while ph.threads[0].len() < 3 {
+            let n = ph.threads[0].len() as u16;
+            ph.threads[0].push(Rec { n, len: gen_len(rng), sib: false, full: false, quota: None, hold: false });
+        }
+        for (i, r) in ph.threads[0].iter_mut().enumerate() {
+            r.n = i as u16;
+            if rng.chance(1, 3) {
+                r.quota = Some(rng.below(r.len as u64 + 12) as u16);
+                r.hold = rng.chance(1, 2);
+            }
+            if matches!(s.encoder, EncKind::Chunk { .. }) && rng.chance(1, 4) {
+                s.enc_fail.push((tid_base, r.n));
+            }
+        }
+        tid_base += 1;
+    }
+    s
+}
+
 pub fn generate(rng: &mut Rng, tier: Tier) -> Scn {
     let big = tier == Tier::Thorough && rng.chance(1, 4);
     let nphases = rng.weighted(&[6, 3, 1]) + 1;
@@ -159,7 +204,7 @@ pub fn generate(rng: &mut Rng, tier: Tier) -> Scn {
             let mut v = vec![];
             for _ in 0..nrec {
                 let n = next_n.entry(tid).or_insert(0);
-                v.push(Rec { n: *n, len: gen_len(rng), sib: false, full: false });
+                v.push(Rec { n: *n, len: gen_len(rng), sib: false, full: false, quota: None, hold: false });
                 *n += 1;
             }
             threads.push(v);
@@ -185,6 +230,7 @@ pub fn generate(rng: &mut Rng, tier: Tier) -> Scn {
         encoder: if rng.chance(2, 3) { EncKind::Chunk { seed: rng.next_u64() } } else { EncKind::Pattern },
         phases,
         enc_fail: vec![],
+        quota: false,
         sched_seed: rng.next_u64(),
         policy: common::gen_policy(rng),
     }
@@ -332,7 +378,172 @@ fn check_file(
     }
 }
 
+/// RLIMIT_FSIZE for this process while alive (SIGXFSZ is ignored: the write fails with EFBIG).
+struct FileSizeLimit;
+
+impl FileSizeLimit {
+    fn set(bytes: u64) -> FileSizeLimit {
+        unsafe {
+            libc::signal(libc::SIGXFSZ, libc::SIG_IGN);
+            let mut cur = libc::rlimit { rlim_cur: 0, rlim_max: 0 };
+            libc::getrlimit(libc::RLIMIT_FSIZE, &mut cur);
+            let l = libc::rlimit { rlim_cur: bytes, rlim_max: cur.rlim_max };
+            libc::setrlimit(libc::RLIMIT_FSIZE, &l);
+        }
+        FileSizeLimit
+    }
+}
+
+impl Drop for FileSizeLimit {
+    fn drop(&mut self) {
+        unsafe {
+            let mut cur = libc::rlimit { rlim_cur: 0, rlim_max: 0 };
+            libc::getrlimit(libc::RLIMIT_FSIZE, &mut cur);
+            let l = libc::rlimit { rlim_cur: cur.rlim_max, rlim_max: cur.rlim_max };
+            libc::setrlimit(libc::RLIMIT_FSIZE, &l);
+        }
+    }
+}
+
+fn execute_quota(scn: &Scn, opts: &ExecOpts) -> Outcome {
+    use log4rs::encode::Encode;
+    let mut out = Outcome::default();
+    let scratch = Scratch::new("f");
+    let path = if scn.nested_dirs { scratch.path("a/b/f.log") } else { scratch.path("f.log") };
+    if let Some(pre) = &scn.pre {
+        if let Some(p) = path.parent() {
+            fs::create_dir_all(p).unwrap();
+        }
+        fs::write(&path, pre).unwrap();
+    }
+    let sched = opts.sched.clone().unwrap_or(Sched::Prng { seed: scn.sched_seed, policy: scn.policy.clone() });
+    let k = common::begin(RunCfg { sched, trace: opts.trace, start_ns: common::T0_NS, tz: None, faults: vec![], crash: None, rand_script: vec![], step_cap: 20_000 });
+    let sink = Arc::new(Sink::default());
+    let scn2 = scn.clone();
+    let sink2 = sink.clone();
+    let body: Box<dyn FnOnce() + Send> = Box::new(move || {
+        let scn = scn2;
+        let sink = sink2;
+        let make = |quiet: bool| -> Box<dyn Encode> {
+            match &scn.encoder {
+                EncKind::Chunk { seed } => Box::new(common::ChunkEncoder { seed: *seed, fail: scn.enc_fail.clone(), quiet }),
+                e => common::make_encoder(e),
+            }
+        };
+        let mut model = common::BufFileModel { buf: vec![], file: scn.pre.clone().unwrap_or_default(), limit: None };
+        let mut tid = 0u16;
+        for ph in &scn.phases {
+            let appender = match FileAppender::builder().append(ph.append).encoder(make(false)).build(&path) {
+                Ok(a) => a,
+                Err(e) => {
+                    sink.fail(P, "C04-E0", "build-failed", format!("building the appender failed although nothing was injected: {}", e));
+                    return;
+                }
+            };
+            if !ph.append {
+                model.file.clear();
+            }
+            let reference = make(true);
+            let mut check = Model { base: model.file.clone(), inv: HashMap::new(), failed: HashSet::new(), switched_inside: false };
+            let mut limit: Option<FileSizeLimit> = None;
+            for r in ph.threads.first().map(|t| t.as_slice()).unwrap_or(&[]) {
+                let id = RecId { tid, n: r.n };
+                let text = frame::encode(id, r.len as usize);
+                if let Some(q) = r.quota {
+                    let on_disk = fs::metadata(&path).map(|m| m.len()).unwrap_or(0);
+                    limit = None; // lifted first: the old guard must not outlive the new limit
+                    let _ = &limit;
+                    limit = Some(FileSizeLimit::set(on_disk + q as u64));
+                    model.limit = Some(model.file.len() + q as usize);
+                    sink.probe("appends_under_a_file_size_limit", 1);
+                }
+                kernel::note("invoke", &format!("{} len={} limit={:?}", id, r.len, model.limit.map(|l| l - model.file.len().min(l))));
+                check.inv.insert(id, (kernel::stamp(), None));
+                let rec_args = format_args!("{}", text);
+                let record = log::Record::builder().level(log::Level::Info).target("sim").args(rec_args).build();
+                let res = appender.append(&record);
+                // the same record through the reference model
+                let want = match reference.encode(&mut model, &record) {
+                    Ok(()) => model.flush_buf().map_err(anyhow::Error::from),
+                    Err(e) => Err(e),
+                };
+                let keep = r.hold && r.quota.is_some();
+                if !keep {
+                    limit = None;
+                    model.limit = None;
+                }
+                kernel::note("return", &format!("{} {}", id, if res.is_ok() { "ok" } else { "err" }));
+                match (&res, &want) {
+                    (Ok(()), Ok(())) => {
+                        check.inv.get_mut(&id).unwrap().1 = Some(kernel::stamp());
+                    }
+                    (Err(_), Err(_)) => {
+                        check.failed.insert(id);
+                        sink.probe("appends_failed_as_the_model_says", 1);
+                    }
+                    (Ok(()), Err(e)) => {
+                        sink.fail(P, "C04-I1", "ack-of-failed-write", format!("append of {} returned Ok although not all of it can have been written ({:#})", id, e));
+                        return;
+                    }
+                    (Err(e), Ok(())) => {
+                        sink.fail(P, "C04-E0", "append-failed", format!("append of {} failed although nothing stands in its way: {:#}", id, e));
+                        return;
+                    }
+                }
+                let data = fs::read(&path).unwrap_or_default();
+                if data != model.file {
+                    let common_len = data.iter().zip(model.file.iter()).take_while(|(a, b)| a == b).count();
+                    sink.fail(
+                        P,
+                        "C04-I2",
+                        "exact-content",
+                        format!("after the append of {} ({}) the file holds {} bytes, the reference model {} (first difference at offset {}): records in the file {:?}, in the model {:?}", id, if res.is_ok() { "ok" } else { "err" }, data.len(), model.file.len(), common_len, frame::whole_ids(&data).iter().map(|i| i.to_string()).collect::<Vec<_>>(), frame::whole_ids(&model.file).iter().map(|i| i.to_string()).collect::<Vec<_>>()),
+                    );
+                    return;
+                }
+                check_file(&sink, &check, &data, if res.is_ok() { Some(id) } else { None }, false, ph.append, false);
+                kernel::point("op.done");
+            }
+            drop(limit);
+            model.limit = None;
+            // closing the appender writes out what its buffer still holds
+            drop(appender);
+            let _ = model.flush_buf();
+            let data = fs::read(&path).unwrap_or_default();
+            if data != model.file {
+                sink.fail(P, "C04-I2", "exact-content", format!("after closing the appender the file holds {} bytes, the reference model {}", data.len(), model.file.len()));
+                return;
+            }
+            tid += ph.threads.len().max(1) as u16;
+        }
+    });
+    let panics = k.run_phase(vec![body], common::WATCHDOG_S);
+    // whatever happened, the limit must not outlive the run
+    drop(FileSizeLimit);
+    for (t, msg) in panics {
+        if t == usize::MAX {
+            out.harness_error = Some("STALL: a simulated thread did not reach a decision point".into());
+        } else {
+            sink.fail(P, "C04-E0", "panic", format!("thread panicked: {}", msg));
+        }
+    }
+    if let Some(a) = k.abort_reason() {
+        out.harness_error = Some(format!("run aborted: {:?}", a));
+    }
+    let (summary, now) = common::end(&k);
+    let (v, probes) = sink.take();
+    out.violations = v;
+    out.probes = probes;
+    out.nontrivial = out.probes.get("appends_under_a_file_size_limit").copied().unwrap_or(0) > 0;
+    out.sim_ns = now - common::T0_NS;
+    out.summary = summary;
+    out
+}
+
 pub fn execute(scn: &Scn, opts: &ExecOpts) -> Outcome {
+    if scn.quota {
+        return execute_quota(scn, opts);
+    }
     let mut out = Outcome::default();
     let scratch = Scratch::new("f");
     let path = if scn.nested_dirs { scratch.path("a/b/f.log") } else { scratch.path("f.log") };
@@ -373,7 +584,7 @@ pub fn execute(scn: &Scn, opts: &ExecOpts) -> Outcome {
         let appender = match FileAppender::builder()
             .append(ph.append)
             .encoder(match &scn.encoder {
-                EncKind::Chunk { seed } if !scn.enc_fail.is_empty() => Box::new(common::ChunkEncoder { seed: *seed, fail: scn.enc_fail.clone() }),
+                EncKind::Chunk { seed } if !scn.enc_fail.is_empty() => Box::new(common::ChunkEncoder { seed: *seed, fail: scn.enc_fail.clone(), quiet: false }),
                 e => common::make_encoder(e),
             })
             .build(&path)
